@@ -740,8 +740,69 @@ func (fe *FactEngine) lenOfValue(at ssa.Instruction, v ssa.Value, depth int) (in
 	return 0, false
 }
 
+// minLenOfValue returns a lower bound of len(v) at instruction at: from dominating length tests on v's path and,
+// for x[lo:hi], from the bounds (constant, or len(x)±c) and the lower bound of the sliced base.
+func (fe *FactEngine) minLenOfValue(at ssa.Instruction, v ssa.Value, depth int) (int64, bool) {
+	if depth > 6 || v == nil {
+		return 0, false
+	}
+	if n, ok := fe.lenOfValue(at, v, 0); ok {
+		return n, true
+	}
+	fn := at.Parent()
+	for {
+		ct, ok := v.(*ssa.ChangeType)
+		if !ok {
+			break
+		}
+		v = ct.X
+	}
+	best, have := int64(0), false
+	if sl, ok := v.(*ssa.Slice); ok && sl.Max == nil {
+		var lo int64
+		loOK := true
+		if sl.Low != nil {
+			lo, loOK = intConst(sl.Low)
+		}
+		if loOK {
+			switch {
+			case sl.High == nil:
+				if n, ok := fe.minLenOfValue(at, sl.X, depth+1); ok {
+					best, have = n-lo, true
+				}
+			default:
+				if hi, ok := intConst(sl.High); ok {
+					best, have = hi-lo, true
+				} else if p, off, ok := lenExpr(sl.High); ok && p == pathOf(sl.X) {
+					if n, ok := fe.minLenOfValue(at, sl.X, depth+1); ok {
+						best, have = n+off-lo, true
+					}
+				}
+			}
+		}
+	}
+	p := pathOf(v)
+	if storesToPath(fn, p) == 0 {
+		for _, b := range fn.Blocks {
+			for k := range b.Succs {
+				for _, f := range fe.factsOnEdgeDeep(fn, Edge{b, k}) {
+					if f.kind == kLenMin && f.path == p && (!have || f.min > best) && fe.holdsAtBlock(fn, at.Block(), f) {
+						best, have = f.min, true
+					}
+				}
+			}
+		}
+	}
+	return best, have
+}
+
 // HoldsVal is Holds for a length fact about value v, which also uses lengths known by construction.
 func (fe *FactEngine) HoldsVal(at ssa.Instruction, v ssa.Value, kind factK, min int64) (bool, string) {
+	if kind == kLenMin {
+		if n, ok := fe.minLenOfValue(at, v, 0); ok && n >= min {
+			return true, ""
+		}
+	}
 	if n, ok := fe.lenOfValue(at, v, 0); ok {
 		switch kind {
 		case kLenMin:
